@@ -227,3 +227,63 @@ Theorem c16_translated_syntect_keeps : forall r g b a r' g' b' a' font, font < 2
   g_syn_to_anstyle (mkAdSyn (r, g, b, a) (r', g', b', a') font) =
   Some (ad_syntect_expected (r, g, b, a) (r', g', b', a') font).
 Proof. exact translated_syntect_expected. Qed.
+
+(* ---- the RENDERING by the target library, proved for yansi (tools/gen_fn_yansi.py -> Generated/YansiFn.v) ----
+   [g_yansi_render o en st] is `yansi::enable(); "x".paint(st).to_string()` -- what the C16 harness runs -- with
+   Style::fmt_prefix / fmt_suffix, Color::fmt, Attribute::fmt, Set / Iter, Painted's Display translated by tools/rs2v on
+   every run from the source of the yansi version Cargo.lock pins ([Some bytes] = it returns, [None] = it panics; [en] =
+   what the global switch held before, [o] = an oracle for the two Quirk::Wrap paths, which are not translated: every
+   theorem holds for every [en] and [o]).  [ya_style] (Model/YansiRender.v) is yansi::Style field for field;
+   [ya_style_ok]: the u8 payloads are bytes and the attribute set is one of the 512; [ya_plain]: no quirk, no condition.
+   [ad_interp_x] (Spec/Targets.v) reads the bytes with the terminal model of C05 / C07 (Spec/Vt + Spec/Sgr) from the
+   default rendition and answers the rendition of the "x". *)
+From AV Require Import Model.YansiRender Generated.YansiFn Proofs.YansiFnGen Proofs.YansiFnAdapter.
+
+(* the translated rendering is the hand rendering (no panic), for any text, as long as Quirk::Wrap is not set *)
+Theorem c16_rendered_yansi_translation_is_hand_rendering : forall o en text st,
+  ya_attrs st < 512 -> ya_has (ya_quirks st) YaWrap = false ->
+  g_yansi_render_text o en text st = Some (ya_render_bytes text st).
+Proof. exact g_yansi_render_text_eq. Qed.
+
+(* for EVERY quirk-free yansi::Style: no panic, and the terminal shows the "x" in exactly the meaning of the value
+   (named colour -> its ANSI colour, Primary -> default, Fixed n -> CIdx n, Rgb exactly; every attribute its effect) *)
+Theorem c16_rendered_yansi_interprets_to_meaning : forall o en st, ya_style_ok st -> ya_plain st ->
+  exists bytes, g_yansi_render o en st = Some bytes /\ ad_interp_x bytes = Some (ya_meaning st).
+Proof. exact yansi_render_is_meaning. Qed.
+
+(* the names Spec/Targets.v lists for yansi are the names yansi's source defines (builder methods of
+   define_properties!, constructors of enum Color), with the same meaning *)
+Theorem c16_rendered_yansi_names_agree :
+  forallb (fun p => match ad_assoc (fst p) ad_yansi_attrs with Some k => k =? ya_attr_effect (snd p) | None => false end)
+          g_ya_attr_builders = true /\
+  forallb (fun p => match ad_assoc (fst p) g_ya_attr_builders with Some _ => true | None => false end) ad_yansi_attrs = true /\
+  forallb (fun p => match ad_assoc (fst p) ad_yansi_colours with
+                    | Some m => opt_colour_eqb m (ya_colour_meaning (snd p)) | None => false end) g_ya_color_ctors = true /\
+  forallb (fun p => match ad_assoc (fst p) g_ya_color_ctors with Some _ => true | None => false end) ad_yansi_colours = true.
+Proof. exact ya_names_agree. Qed.
+
+(* the adapter's image: what to_yansi_style builds denotes a quirk-free Style whose meaning is the projection *)
+Theorem c16_rendered_yansi_convert_value : forall s, ad_src_ok s -> ya_src_u8 s ->
+  exists v, ya_of_tstyle (ad_to_yansi s) = Some v /\ ya_style_ok v /\ ya_plain v /\
+            ya_meaning v = ad_project AdYansi s.
+Proof. exact yansi_convert_value. Qed.
+
+(* render (convert s) interprets to project(s), both halves translated from source: anstyle_yansi::to_yansi_style,
+   then yansi's rendering *)
+Theorem c16_rendered_yansi_convert_render : forall o en s, ad_src_ok s -> ya_src_u8 s ->
+  (t <- g_to_yansi_style s ;; v <- ya_of_tstyle t ;; bs <- g_yansi_render o en v ;; ad_interp_x bs)
+  = Some (ad_project AdYansi s).
+Proof. exact translated_yansi_convert_render. Qed.
+
+(* in the vocabulary of the differential check: the bytes are a correct rendering of project(s) *)
+Theorem c16_rendered_yansi_render_ok : forall o en s, ad_src_ok s -> ya_src_u8 s ->
+  exists v bs, ya_of_tstyle (ad_to_yansi s) = Some v /\ g_yansi_render o en v = Some bs /\
+               ad_render_ok (ad_project AdYansi s) bs = true.
+Proof. exact translated_yansi_render_total. Qed.
+
+(* the restriction to quirk-free styles is needed (outside the adapter's image): red + Quirk::Bright shows bright red *)
+Theorem c16_rendered_yansi_quirk_refuted :
+  exists st, ya_style_ok st /\ ya_cond st = None /\ ya_quirks st <> 0 /\
+    (bs <- g_yansi_render ya_no_oracle false st ;; ad_interp_x bs) = Some (mkStyle (Some (CAnsi 9)) None None 0) /\
+    ya_meaning st = mkStyle (Some (CAnsi 1)) None None 0.
+Proof. exact yansi_render_quirk_refuted. Qed.
